@@ -134,6 +134,7 @@ func runC09(c *Ctx, r *Report) {
 	defer c15r7(c, r) // a reload restarts the indices: the selection of the old list must not carry over
 	defer c09r7(c, r)
 	defer c09r8(c, r)
+	defer c09r9(c, r)
 	defer c07r6(c, r) // an action list stops at the action that ends the session
 
 	// ---------------- R2 ----------------
